@@ -136,6 +136,8 @@ class NetworkxGraph(AbstractGraph):
             self._graph.has_node(node_start)
             and self._graph.has_node(node_end)
             and not self._edge_already_present(node_start, node_end, inherits)
+            # an edge of the module hierarchy stays one: otherwise the order in which modules were found would decide
+            and not self._is_hierarchy_edge(node_start, node_end)
         ):
             self._graph.add_edge(node_start, node_end, inherits=inherits)
 
@@ -313,6 +315,11 @@ class NetworkxGraph(AbstractGraph):
 
         node_parts = node.split(".")
         return ".".join(node_parts[: self._level_limit + 1])
+
+    def _is_hierarchy_edge(self, node_start: Node, node_end: Node) -> bool:
+        return self._graph.has_edge(
+            node_start, node_end
+        ) and self.parent_child_relationship(node_start, node_end)
 
     def _edge_already_present(
         self, node_start: Node, node_end: Node, inherits: bool
